@@ -55,16 +55,28 @@ static int node_in_tree(CC_TreeTable *t, RBNode *n, RBNode *x, int depth) {
     if (n == t->sentinel || n == NULL || depth > 130) return 0;
     return n == x || node_in_tree(t, n->left, x, depth + 1) || node_in_tree(t, n->right, x, depth + 1);
 }
+/* position of a node, computed as the C code would: by climbing the parent pointers up to the root */
+static void o_path(CC_TreeTable *t, RBNode *n) {
+    char buf[140]; int len = 0;
+    while (n->parent != t->sentinel && n->parent != NULL && len < 135) {
+        if (n == n->parent->left) buf[len++] = 'L';
+        else if (n == n->parent->right) buf[len++] = 'R';
+        else { buf[len++] = '?'; walk_fail("parent"); break; }
+        n = n->parent;
+    }
+    if (n != t->root && len < 135 && (len == 0 || buf[len - 1] != '?')) walk_fail("parent");
+    o("/"); while (len > 0) o("%c", buf[--len]);
+}
 static void phys_tree(CC_TreeTable *t, CC_TreeTableIter *it) {
     walk_msg = NULL;
     o("size=%zu cmps=%zu it=", t->size, cmp_calls);
     if (!it) o("-");
     else {
         if (it->current == t->sentinel) o("cur:S"); else if (it->current == NULL) o("cur:N");
-        else if (node_in_tree(t, t->root, it->current, 0)) o("cur:%llu", VAL(it->current->key));
+        else if (node_in_tree(t, t->root, it->current, 0)) { o("cur:%llu", VAL(it->current->key)); o_path(t, it->current); }
         else { o("cur:?"); walk_fail("iter-dangling"); }
         if (it->next == t->sentinel) o(",next:S");
-        else if (node_in_tree(t, t->root, it->next, 0)) o(",next:%llu", VAL(it->next->key));
+        else if (node_in_tree(t, t->root, it->next, 0)) { o(",next:%llu", VAL(it->next->key)); o_path(t, it->next); }
         else { o(",next:?"); walk_fail("iter-dangling"); }
     }
     o(" tree="); dump_node(t, t->root, 0);
